@@ -877,6 +877,17 @@ func (ck *Check) nonNilWhenOK(f *ssa.Function, idx int) bool {
 						continue
 					}
 				}
+				// result and error of this edge are the pair a helper returned: `v, err = h(…)` with h
+				// itself handing out a non-nil result whenever its error is nil
+				if rx, ok := ev.(*ssa.Extract); ok {
+					if ex, ok := ee.(*ssa.Extract); ok && ex.Tuple == rx.Tuple {
+						if hc, ok := rx.Tuple.(*ssa.Call); ok {
+							if h := hc.Common().StaticCallee(); h != nil && ck.P.inRepo(h) && h.Blocks != nil && ex.Index == h.Signature.Results().Len()-1 && ck.nonNilWhenOK(h, rx.Index) {
+								continue
+							}
+						}
+					}
+				}
 				et := ctx.Term(ee)
 				if imp, _, _ := Entails(ctx.edgePC(b.Preds[i], b), Not(cmpFormula(token.EQL, et, nilT))); imp {
 					continue
